@@ -124,6 +124,14 @@ theorem edit_blocks_transcribed :
     Gen.Decoders.editBlocks.lookup "TsReq.tDate" = some "if v, ok := raw[\"tDate\"]; ok { var s string if err := json.Unmarshal(v, &s); err == nil { t, parseErr := time.Parse(\"2006-01-02\", s) if parseErr == nil { raw[\"tDate\"], _ = json.Marshal(t.Format(time.RFC3339Nano)) } } }" := by
   refine ⟨rfl, rfl, rfl, rfl, rfl, rfl, rfl, rfl, rfl, rfl, rfl, rfl, rfl, rfl, rfl, rfl⟩
 
+/-- **tie**: whether the middleware decodes a body depends on the VERB alone — the guard of the body step tests the
+verb against POST / PUT / PATCH and calls nothing (so the shape of the request message, e.g. one without fields left
+for the body, cannot switch decoding off; regenerated from the emitted `BindingMiddleware`; seed C11-r9-1 added
+`&& hasBodyFields(toBind, pathParams)` and dispatched malformed bodies on such RPCs). `Serve.serveBody` reads
+`bodyVerb` and nothing else. -/
+theorem body_guard_is_the_verb :
+    Gen.Pipeline.bodyVerbs = ["POST", "PUT", "PATCH"] ∧ Gen.Pipeline.bodyGuardCalls = [] := by decide
+
 /-- **tie**: the two body readers. JSON: read, error check, empty check. Binary: read, EMPTY CHECK,
 then an error check that lets `io.ErrUnexpectedEOF` through (`Decode.Impl.readJSON/readBinary`). -/
 theorem body_readers_transcribed :
